@@ -34,7 +34,7 @@ def gates(tier):
                         "f.project(k)(x)": 1000 * k, "constructors": 1000 * k},
         "shapes": {c: 5 * k for c in ["f:eps_out", "g:eps_in", "eps:eps", "fst_cyclic", "branch:left-smaller", "branch:right-smaller",
                                       "fst_multi_initial", "fst_multi_final", "sr:Q", "sr:Float", "sr:Boolean", "sr:MaxTimes",
-                                      "both-eps-sides", "constructor-freshness", "fst_one_to_many_parallel"]},
+                                      "both-eps-sides", "constructor-freshness", "fst_one_to_many_parallel", "fst@acceptor"]},
         "min_hashseeds": 2,
     }
 
@@ -155,6 +155,25 @@ def run_case(case, ctx):
                         ok, v = ctx.call(APIS[0], c2, H, x, z)
                         if ok:
                             ctx.check(APIS[0], same(v, w), "compose(x,z)/value", c2, {"have": v, "want": lib.want_value(R, w)})
+        # --- composition with an acceptor on the right: f @ A == f @ diag(A), i.e. (x, y) -> f(x, y) * A(y)
+        ma = {"n": g["n"], "names": g["names"], "alphabet": ["x", "y"], "start": g["start"], "stop": g["stop"],
+              "arcs": [[i, ab[0], j, w] for i, ab, j, w in g["arcs"]]}
+        gd = dict(g, arcs=[[i, (ab[0], ab[0]), j, w] for i, ab, j, w in g["arcs"]])
+        rgd, _, _, _ = lib.fst_ref(gd, R)
+        ok, Acc = ctx.call(APIS[0], case, lib.build_wfsa, ma, R, WFSA if R == "Float" else base.WFSA)
+        if ok:
+            ok, HA = ctx.call(APIS[0], case, lambda: F @ Acc, mech_prefix="fst@acceptor")
+            if ok:
+                ctx.shape["fst@acceptor"] += 1
+                for x in XA:
+                    for y in XB:
+                        if len(x) + len(y) > 3:
+                            continue
+                        w = fstref.compose_value(rf, rgd, x, y, zero, one, idem)
+                        c2 = dict(case, x=list(x), y=list(y))
+                        ok, v = ctx.call(APIS[0], c2, HA, x, y, mech_prefix="fst@acceptor")
+                        if ok:
+                            ctx.check(APIS[0], same(v, w), "fst@acceptor/value", c2, {"have": v, "want": lib.want_value(R, w)})
     except fsaref.Singular:
         ctx.skip("case", "oracle-not-applicable:Singular")
         return
